@@ -50,6 +50,17 @@ func genGlob(c *Ctx) {
 		}
 	}
 	rec("", 3)
+	// the zero byte and the last code point of the basic plane (values an implementation may be
+	// tempted to use as "no byte" / "no character"), all pairs
+	first := len(seqs)
+	pieces = []string{"\x00", "\uffff", "*", "\\", "a"}
+	rec("", 3)
+	for _, p := range seqs[first:] {
+		for _, sv := range seqs[first:] {
+			c.Emit("like/sentinels", WList(WStr(p), WStr(sv)), globObs(p, sv))
+		}
+	}
+	seqs = seqs[:first]
 	for pi, p := range seqs {
 		for si, sv := range seqs {
 			if !c.Thorough() && (pi*7+si)%5 != 0 {
